@@ -77,13 +77,19 @@ package inputrc
 // decs(t): the decoding of a whole sequence, token by token (first token decr1(t), length toklen(t), then the
 // rest).  The recursive equation is a *manual* axiom: it is never given to the solver with a quantifier,
 // only the one instance the loop of unescapeRunes names at its head ("use"), so it cannot unfold endlessly.
-// nohexoct(r, a, b): no \x / octal token between a and b (their bit arithmetic is abstracted, as in simpletok).
+// plain(t): no \\x / octal token at any token start of t (their bit arithmetic is abstracted, as in simpletok);
+// recursive like decs, by a manual axiom.
 //@ spec decs(t []rune) []rune
 //@ axiom decs_empty(t []rune): len(t) == 0 ==> decs(t) == emptyrunes()
 //@ trigger decs(t)
 //@ axiom decs_step(t []rune): len(t) >= 1 ==> decs(t) == decr1(t) + decs(t[min(toklen(t), len(t)):])
 //@ manual
-//@ pred nohexoct(r []rune, a int, b int) = all(k, a, b, r[k] == '\\' ==> ite(k + 1 < b, r[k + 1], 0) != 'x' && !isoct(ite(k + 1 < b, r[k + 1], 0)))
+//@ spec tokok(t []rune) bool = t[0] != '\\' || (g(t, 1) != 'x' && !isoct(g(t, 1)))
+//@ spec plain(t []rune) bool
+//@ axiom plain_empty(t []rune): len(t) == 0 ==> plain(t)
+//@ trigger plain(t)
+//@ axiom plain_step(t []rune): len(t) >= 1 ==> plain(t) == (tokok(t) && plain(t[min(toklen(t), len(t)):]))
+//@ manual
 
 //@ func unescapeRunes
 //@   props C12 C01 C19
@@ -92,11 +98,12 @@ package inputrc
 //@   pure
 //@   ensures @C19 [one-token] i == 0 && end == len(r) && simpletok(r) ==> result == str(decr1(r))
 //@   ensures [one-rune-identity] len(r) == 1 ==> result == str(r)
-//@   ensures @C19 [whole-sequence] len(r) != 1 && i <= end && nohexoct(r, i, end) ==> result == str(decs(r[i:end]))
+//@   ensures @C19 [whole-sequence] len(r) != 1 && i <= end && plain(r[i:end]) ==> result == str(decs(r[i:end]))
 //@   loop 1 invariant i >= i$0
 //@   loop 1 invariant i$0 == 0 && end == len(r) && simpletok(r) ==> (i == 0 && len(seq) == 0) || (i == end && seq == decr1(r))
-//@   loop 1 invariant i$0 <= end && nohexoct(r, i$0, end) ==> seq + decs(r[min(i, end):end]) == decs(r[i$0:end])
+//@   loop 1 invariant i$0 <= end && plain(r[i$0:end]) ==> plain(r[min(i, end):end]) && seq + decs(r[min(i, end):end]) == decs(r[i$0:end])
 //@   loop 1 use decs_step(r[min(i, end):end])
+//@   loop 1 use plain_step(r[min(i, end):end])
 //@   loop 1 decreases end - i
 
 //@ func decodeKey
@@ -170,7 +177,7 @@ package inputrc
 //@   defines unescs
 //@   ensures @C19 [one-token] simpletok(runes(s)) ==> result == str(decr1(runes(s)))
 //@   ensures [one-rune-identity] len(runes(s)) == 1 ==> result == str(runes(s))
-//@   ensures @C19 [whole-sequence] len(runes(s)) != 1 && nohexoct(runes(s), 0, len(runes(s))) ==> result == str(decs(runes(s)))
+//@   ensures @C19 [whole-sequence] len(runes(s)) != 1 && plain(runes(s)) ==> result == str(decs(runes(s)))
 
 // ---------------------------------------------------------------------------------------
 // Handler interface (application code: assumed total; observable effect = ghost call counters)
@@ -399,6 +406,78 @@ package inputrc
 //@ axiom allesc_cat(a []rune, b []rune): allesc(cat(a, b)) == (allesc(a) && allesc(b))
 //@ trigger allesc(cat(a, b))
 
+// ---------------------------------------------------------------------------------------
+// C19 at the level of whole sequences: Unescape(Escape(k)) == k by induction on len(k).
+// allD(k): every rune is in D (escable is tracked by allesc); noamb(k): no rune 0x1c / 0xdc (their spelling ends in a bare
+// backslash, \C-\ and \M-\, which the decoder reads together with a following "M-" / "C-": recorded finding).
+//@ spec allD(k []rune) bool
+//@ axiom allD_empty(k []rune): len(k) == 0 ==> allD(k)
+//@ trigger allD(k)
+//@ axiom allD_unit(c rune): allD(unit(c)) == inD(c)
+//@ trigger allD(unit(c))
+//@ axiom allD_cat(a []rune, b []rune): allD(cat(a, b)) == (allD(a) && allD(b))
+//@ trigger allD(cat(a, b))
+//@ spec noamb(k []rune) bool
+//@ axiom noamb_empty(k []rune): len(k) == 0 ==> noamb(k)
+//@ trigger noamb(k)
+//@ axiom noamb_unit(c rune): noamb(unit(c)) == (c != 28 && c != 220)
+//@ trigger noamb(unit(c))
+//@ axiom noamb_cat(a []rune, b []rune): noamb(cat(a, b)) == (noamb(a) && noamb(b))
+//@ trigger noamb(cat(a, b))
+
+// one rune in front of any continuation t: its spelling is read back as that rune and nothing of t is consumed
+//@ lemma key1_bind(c rune, t []rune): inD(c) && escable(c) && c != 28 && c != 220 ==> decs(escr1(c, "\\C-?", "\\C-M") + t) == unit(c) + decs(t) && plain(escr1(c, "\\C-?", "\\C-M") + t) == plain(t)
+//@   props C19
+//@   use decs_step(escr1(c, "\\C-?", "\\C-M") + t)
+//@   use plain_step(escr1(c, "\\C-?", "\\C-M") + t)
+//@ lemma key1_macro(c rune, t []rune): inD(c) && escable(c) && c != 28 && c != 220 ==> decs(escr1(c, "\\d", "\\r") + t) == unit(c) + decs(t) && plain(escr1(c, "\\d", "\\r") + t) == plain(t)
+//@   props C19
+//@   use decs_step(escr1(c, "\\d", "\\r") + t)
+//@   use plain_step(escr1(c, "\\d", "\\r") + t)
+
+// the whole sequence in front of any continuation, by induction on its length (last rune split off)
+//@ lemma seq_roundtrip_bind(k []rune, t []rune): allD(k) && allesc(k) && noamb(k) ==> decs(escs(k, "\\C-?", "\\C-M") + t) == k + decs(t) && plain(escs(k, "\\C-?", "\\C-M") + t) == plain(t)
+//@   props C19
+//@   induct len(k)
+//@   use seq_roundtrip_bind(k[:len(k) - 1], escr1(k[len(k) - 1], "\\C-?", "\\C-M") + t)
+//@   use key1_bind(k[len(k) - 1], t)
+//@ lemma seq_roundtrip_macro(k []rune, t []rune): allD(k) && allesc(k) && noamb(k) ==> decs(escs(k, "\\d", "\\r") + t) == k + decs(t) && plain(escs(k, "\\d", "\\r") + t) == plain(t)
+//@   props C19
+//@   induct len(k)
+//@   use seq_roundtrip_macro(k[:len(k) - 1], escr1(k[len(k) - 1], "\\d", "\\r") + t)
+//@   use key1_macro(k[len(k) - 1], t)
+// the same without the exclusion of 0x1c / 0xdc: does not hold (recorded finding, witness c == 28 || c == 220)
+//@ lemma key1_all_bind(c rune, t []rune): inD(c) && escable(c) ==> decs(escr1(c, "\\C-?", "\\C-M") + t) == unit(c) + decs(t)
+//@   props C19
+//@   use decs_step(escr1(c, "\\C-?", "\\C-M") + t)
+
+// the escaped text is well-formed (so that []rune(string(x)) == x for it)
+//@ lemma clean_escr1_bind(c rune): inD(c) && escable(c) ==> clean(escr1(c, "\\C-?", "\\C-M"))
+//@   props C19
+//@ lemma clean_escr1_macro(c rune): inD(c) && escable(c) ==> clean(escr1(c, "\\d", "\\r"))
+//@   props C19
+//@ lemma clean_escs_bind(k []rune): allD(k) && allesc(k) ==> clean(escs(k, "\\C-?", "\\C-M"))
+//@   props C19
+//@   induct len(k)
+//@   use clean_escs_bind(k[:len(k) - 1])
+//@   use clean_escr1_bind(k[len(k) - 1])
+//@ lemma clean_escs_macro(k []rune): allD(k) && allesc(k) ==> clean(escs(k, "\\d", "\\r"))
+//@   props C19
+//@   induct len(k)
+//@   use clean_escs_macro(k[:len(k) - 1])
+//@   use clean_escr1_macro(k[len(k) - 1])
+
+// the theorem about the real functions (escb, escm, unescs name Escape, EscapeMacro, Unescape; their proved
+// whole-sequence postconditions are available here as facts about those names)
+//@ lemma unescape_escape(s string): allD(runes(s)) && allesc(runes(s)) && noamb(runes(s)) && len(escs(runes(s), "\\C-?", "\\C-M")) != 1 ==> unescs(escb(s)) == str(runes(s))
+//@   props C19
+//@   use seq_roundtrip_bind(runes(s), emptyrunes())
+//@   use clean_escs_bind(runes(s))
+//@ lemma unescape_escapemacro(s string): allD(runes(s)) && allesc(runes(s)) && noamb(runes(s)) && len(escs(runes(s), "\\d", "\\r")) != 1 ==> unescs(escm(s)) == str(runes(s))
+//@   props C19 C18
+//@   use seq_roundtrip_macro(runes(s), emptyrunes())
+//@   use clean_escs_macro(runes(s))
+
 //@ func escape
 //@   props C19 C01
 //@   terminates
@@ -410,10 +489,14 @@ package inputrc
 //@   loop 1 invariant 0 <= itpos && itpos <= len(s)
 //@   loop 1 invariant len(s) == 1 && s[0] < 128 && str(runes(mget(m, 127))) == mget(m, 127) && str(runes(mget(m, 13))) == mget(m, 13) ==> (itpos == 0 && len(v) == 0) || (itpos == 1 && len(v) == 1 && (s[0] == 127 || s[0] == 13 || s[0] == 7 || s[0] == 8 || s[0] == 27 || s[0] == 12 || s[0] == 10 || s[0] == 9 || s[0] == 11 || uprint(escfin(s[0])) ==> v[0] == str(escr1(s[0], runes(mget(m, 127)), runes(mget(m, 13))))))
 
+// escb names the result of Escape (a pure function of its argument)
+//@ spec escb(s string) string
 //@ func Escape
 //@   props C19 C01
 //@   terminates
 //@   pure
+//@   defines escb
+//@   ensures @C19 [whole-sequence] allesc(runes(s)) ==> result == str(escs(runes(s), "\\C-?", "\\C-M"))
 // escm names the result of EscapeMacro (a pure function of its argument)
 //@ spec escm(s string) string
 //@ func EscapeMacro
@@ -421,3 +504,13 @@ package inputrc
 //@   terminates
 //@   pure
 //@   defines escm
+//@   ensures @C19 [whole-sequence] allesc(runes(s)) ==> result == str(escs(runes(s), "\\d", "\\r"))
+
+// Self-test of the lemma machinery (selftest/run.sh expects this one to FAIL): if the C19 theory (axioms, manual
+// instances, facts imported from proved functions) were inconsistent, this would prove.
+//@ lemma zz_canary_c19_theory_consistent(s string, k []rune, t []rune, c rune): unescs(escb(s)) == unescs(escb(s)) && decs(escs(k, "\\C-?", "\\C-M") + t) == decs(escs(k, "\\C-?", "\\C-M") + t) && allD(k) && allesc(k) && noamb(k) && plain(t) && clean(escr1(c, "\\d", "\\r")) ==> c != c
+//@   props SELFTEST
+//@   use seq_roundtrip_bind(k, t)
+//@   use decs_step(t)
+//@   use plain_step(t)
+//@   use clean_escs_bind(k)
